@@ -92,6 +92,22 @@ def tree_id():
     return h.hexdigest()[:16]
 
 
+def sweep_stale_scratch():
+    """Remove scratch directories under SHM left behind by killed runs (their
+    name carries the pid of the process that owned them)."""
+    import re
+    import shutil
+
+    try:
+        names = os.listdir(SHM)
+    except OSError:
+        return
+    for n in names:
+        m = re.match(r"pgsim-[a-z0-9]+-(?:replay-)?(\d+)", n)
+        if m and not os.path.exists(f"/proc/{m.group(1)}"):
+            shutil.rmtree(os.path.join(SHM, n), ignore_errors=True)
+
+
 # ----------------------------------------------------------------------------
 # seeds
 
@@ -243,7 +259,7 @@ def n_workers():
     return n
 
 
-def run_pool(run_fn, indices, workers=None, wall_timeout=3300.0, init_fn=None):
+def run_pool(run_fn, indices, workers=None, wall_timeout=3300.0, init_fn=None, fini_fn=None):
     """Execute run_fn(idx) for every idx; returns {idx: result}.
 
     Static interleaved partition: worker k gets indices[k::workers].  Results
@@ -276,6 +292,8 @@ def run_pool(run_fn, indices, workers=None, wall_timeout=3300.0, init_fn=None):
                             res = {"harness": traceback.format_exc()}
                         out.write(canon({"idx": idx, "res": res}) + "\n")
                         out.flush()
+                if fini_fn:
+                    fini_fn()
             except BaseException:
                 traceback.print_exc()
                 code = HARNESS_EXIT
